@@ -15,6 +15,7 @@ import (
 	"github.com/comdex-official/comdex/app/wasm/bindings"
 	assettypes "github.com/comdex-official/comdex/x/asset/types"
 	auctiontypes "github.com/comdex-official/comdex/x/auction/types"
+	auctionsV2 "github.com/comdex-official/comdex/x/auctionsV2"
 	auctionsV2types "github.com/comdex-official/comdex/x/auctionsV2/types"
 	collectortypes "github.com/comdex-official/comdex/x/collector/types"
 	esm "github.com/comdex-official/comdex/x/esm"
@@ -137,13 +138,19 @@ func c01Dec(s string) sdk.Dec { return sdk.MustNewDecFromStr(s) }
 func (w *c01World) emitProducts() {
 	eps, _ := w.app.AssetKeeper.GetPairsVaults(w.ctx)
 	for _, e := range eps {
-		p, _ := w.app.AssetKeeper.GetPair(w.ctx, e.PairId)
-		ain, _ := w.app.AssetKeeper.GetAsset(w.ctx, p.AssetIn)
-		aout, _ := w.app.AssetKeeper.GetAsset(w.ctx, p.AssetOut)
-		w.tr.Line("vault.product", u(e.Id), u(e.AppId), u(p.AssetIn), u(p.AssetOut), ain.Decimals.String(), aout.Decimals.String(),
-			e.MinCr.BigInt().String(), e.DebtFloor.String(), e.DebtCeiling.String(), e.DrawDownFee.BigInt().String(), e.ClosingFee.BigInt().String(),
-			fmt.Sprint(e.IsStableMintVault), fmt.Sprint(e.IsVaultActive), fmt.Sprint(e.AssetOutOraclePrice), u(e.AssetOutPrice))
+		w.emitProduct("vault.product", e)
 	}
+}
+
+// emitProduct prints the configuration the handlers will read for one product (`vault.product` at the start of a history,
+// `vault.reconfig` after the configuration was changed through the real update paths).
+func (w *c01World) emitProduct(kind string, e assettypes.ExtendedPairVault) {
+	p, _ := w.app.AssetKeeper.GetPair(w.ctx, e.PairId)
+	ain, _ := w.app.AssetKeeper.GetAsset(w.ctx, p.AssetIn)
+	aout, _ := w.app.AssetKeeper.GetAsset(w.ctx, p.AssetOut)
+	w.tr.Line(kind, u(e.Id), u(e.AppId), u(p.AssetIn), u(p.AssetOut), ain.Decimals.String(), aout.Decimals.String(),
+		e.MinCr.BigInt().String(), e.DebtFloor.String(), e.DebtCeiling.String(), e.DrawDownFee.BigInt().String(), e.ClosingFee.BigInt().String(),
+		fmt.Sprint(e.IsStableMintVault), fmt.Sprint(e.IsVaultActive), fmt.Sprint(e.AssetOutOraclePrice), u(e.AssetOutPrice))
 }
 
 func (w *c01World) acct(addr string) int {
@@ -168,16 +175,21 @@ func c01NewWorld(t *testing.T, tr *Trace, rng *Rng) *c01World {
 	debtDec := []int64{6, 6, 12, 8}[rng.Intn(4)]
 	aD := w.addAsset("CMST", "ucmst", debtDec, true)
 	aS := w.addAsset("USDC", "uusdc", []int64{6, 6, 12, 18, 8}[rng.Intn(5)], false)
+	// a second debt asset (so that supply / principal / the redemption register are kept per denom, and an app's emergency
+	// redemption has several debt assets)
+	aE := w.addAsset("EURX", "ueurx", []int64{6, 8, 18}[rng.Intn(3)], true)
 	w.setPrice(aA, uint64(1+rng.Intn(30))*500000, true)
 	w.setPrice(aB, uint64(1+rng.Intn(3000))*1000000, true)
 	w.setPrice(aD, 1000000, true)
 	w.setPrice(aS, 1000000, true)
+	w.setPrice(aE, uint64(900000+rng.Intn(300000)), true)
 	app1 := w.addApp("appone")
 	app2 := w.addApp("apptwo")
 	w.apps = []uint64{app1, app2}
 	pAD := w.addPair(aA, aD)
 	pBD := w.addPair(aB, aD)
 	pSD := w.addPair(aS, aD)
+	pAE := w.addPair(aA, aE)
 	base := bindings.MsgAddExtendedPairsVault{
 		StabilityFee: c01Dec("0.02"), ClosingFee: c01Dec("0"), LiquidationPenalty: c01Dec("0.15"), DrawDownFee: c01Dec("0.01"),
 		IsVaultActive: true, DebtCeiling: sdk.NewInt(1_000_000_000_000), DebtFloor: sdk.NewInt(1_000_000), MinCr: c01Dec("1.5"),
@@ -205,6 +217,12 @@ func c01NewWorld(t *testing.T, tr *Trace, rng *Rng) *c01World {
 	p4.DebtFloor = sdk.NewInt(int64(1 + rng.Intn(3_000_000)))
 	p4.DrawDownFee = c01Dec([]string{"0.01", "0.000000000000000001", "0.999", "0.3"}[rng.Intn(4)])
 	w.addProduct("ATOMB", app2, pAD, p4)
+	p5 := base
+	p5.ClosingFee = c01Dec([]string{"0", "0.003"}[rng.Intn(2)])
+	p5.DrawDownFee = c01Dec([]string{"0", "0.002"}[rng.Intn(2)])
+	p5.LiquidationPenalty = c01Dec([]string{"0.15", "0", "0.4"}[rng.Intn(3)])
+	p5.DebtFloor = sdk.NewInt(int64(1 + rng.Intn(2_000_000)))
+	w.addProduct("ATOME", app1, pAE, p5)
 	for _, a := range w.apps {
 		_ = w.app.Rewardskeeper.WhitelistAppIDVault(w.ctx, a)
 		// second-generation liquidation with Dutch auctions enabled for the app
@@ -254,10 +272,12 @@ func c01NewWorld(t *testing.T, tr *Trace, rng *Rng) *c01World {
 	// a sponsor funds the apps' liquidation reserve so that under-water auctions can close
 	sponsor := c01Addr(200)
 	for _, a := range w.apps {
-		amt := sdk.NewInt(1_000_000_000_000_000)
-		w.fund(sponsor, aD, amt)
-		if !w.deliver(liq2types.NewMsgAppReserveFundsRequest(sponsor.String(), a, aD, sdk.NewCoin(w.denomOf[aD], amt))) {
-			t.Fatal("cannot fund the app reserve")
+		for _, debt := range []uint64{aD, aE} {
+			amt := sdk.NewInt(1_000_000_000_000_000)
+			w.fund(sponsor, debt, amt)
+			if !w.deliver(liq2types.NewMsgAppReserveFundsRequest(sponsor.String(), a, debt, sdk.NewCoin(w.denomOf[debt], amt))) {
+				t.Fatal("cannot fund the app reserve")
+			}
 		}
 	}
 	return w
@@ -624,7 +644,21 @@ func (w *c01World) oneOp() {
 			}
 			w.app.EsmKeeper.SetESMStatus(w.ctx, st)
 			w.tr.Count("op:esm")
+			if st.Status && r.Chance(70) {
+				// right after the shutdown, inside the cool-off period: an owner withdraws against the principal at ratio 1
+				w.esmWithdrawOp()
+			}
 		}
+	}
+	if r.Chance(5) {
+		w.reconfigOp()
+		return
+	}
+	if len(w.openAuctions()) > 0 && r.Chance(12) && w.auctionBlock2Op() {
+		return
+	}
+	if r.Chance(10) && w.esmWithdrawOp() {
+		return
 	}
 	if w.esmDue() && r.Chance(25) {
 		w.esmBlockOp()
@@ -647,6 +681,25 @@ func (w *c01World) oneOp() {
 			return
 		}
 		w.bidOp1(user)
+		return
+	}
+	if p.isStable && r.Chance(70) {
+		w.stableOp(user, p, app)
+		return
+	}
+	if r.Chance(2) {
+		// a message of the wrong kind for the product: an ordinary create against a stable-mint product, a stable mint
+		// against an ordinary product (`IsStableMintVault` is checked by every handler of either family)
+		amt := w.amount(2)
+		env := w.env(app, p.id, 0, false)
+		if p.isStable {
+			ok := w.deliver(&vaulttypes.MsgCreateRequest{From: user.String(), AppId: app, ExtendedPairVaultId: p.id, AmountIn: amt.MulRaw(3), AmountOut: amt})
+			emit("create", un, u(app), u(p.id), amt.MulRaw(3).String(), amt.String(), env, ok)
+		} else {
+			ok := w.deliver(&vaulttypes.MsgCreateStableMintRequest{From: user.String(), AppId: app, ExtendedPairVaultId: p.id, Amount: amt})
+			emit("stableCreate", un, u(app), u(p.id), amt.String(), "-", env, ok)
+		}
+		w.tr.Count("op:wrong-kind-for-product")
 		return
 	}
 	switch c := r.Intn(100); {
@@ -908,6 +961,19 @@ func (w *c01World) oneOp() {
 			emit("close", fn, u(vapp), u(prod), u(v.Id), "-", env, okk)
 		case k < 88:
 			amt := w.amount(r.Intn(4))
+			if v.AmountOut.IsPositive() && v.AmountIn.IsPositive() {
+				switch r.Intn(4) {
+				case 0: // the smallest deposit whose proportional draw is 1 unit (and its neighbours: the draw is then 0 and refused)
+					amt = v.AmountIn.Quo(v.AmountOut).AddRaw(int64(r.Intn(3)))
+					w.tr.Count("depositAndDraw:amount:smallest-nonzero-draw")
+				case 1, 2: // a share of the collateral already there
+					amt = v.AmountIn.MulRaw(int64(1 + r.Intn(50))).QuoRaw(100)
+					w.tr.Count("depositAndDraw:amount:share")
+				}
+				if !amt.IsPositive() {
+					amt = sdk.NewInt(1)
+				}
+			}
 			if r.Chance(80) {
 				bal := w.app.BankKeeper.GetBalance(w.ctx, from, w.denomOf[vp.assetIn]).Amount
 				if bal.LT(amt) {
@@ -918,9 +984,13 @@ func (w *c01World) oneOp() {
 			emit("depositAndDraw", fn, u(vapp), u(prod), u(v.Id), amt.String(), env, okk)
 		default:
 			// the handler accrues for (msg.AppId, the vault's own product)
-			env = w.env(vapp, v.ExtendedPairVaultID, v.Id, true)
-			okk := w.deliver(&vaulttypes.MsgVaultInterestCalcRequest{From: user.String(), AppId: vapp, UserVaultId: v.Id})
-			emit("interestCalc", u(vapp), u(v.Id), "-", "-", "-", env, okk)
+			vid := v.Id
+			if r.Chance(8) {
+				vid = w.app.VaultKeeper.GetIDForVault(w.ctx) + uint64(1+r.Intn(3)) // no such vault
+			}
+			env = w.env(vapp, v.ExtendedPairVaultID, vid, true)
+			okk := w.deliver(&vaulttypes.MsgVaultInterestCalcRequest{From: user.String(), AppId: vapp, UserVaultId: vid})
+			emit("interestCalc", u(vapp), u(vid), "-", "-", "-", env, okk)
 		}
 	}
 }
@@ -1083,6 +1153,14 @@ func (w *c01World) liquidate(user sdk.AccAddress, v vaulttypes.Vault, gen1 bool,
 		w.tr.Count("op:seize:ok")
 		w.tr.Line("vault.msg", "seize", u(v.Id), "-", "-", "-", "-", env, "ok")
 		w.state()
+		if !gen1 && w.rng.Chance(30) {
+			// the next block's begin-blocker finds the fresh auction running: price update only, the vault books must not move
+			w.height++
+			w.now = w.now.Add(time.Duration(1+w.rng.Intn(600)) * time.Second)
+			w.ctx = w.ctx.WithBlockHeight(w.height).WithBlockTime(w.now)
+			w.auctionBlock2OpAt(false)
+			w.tr.Count("op:auctionblock2:running-auction")
+		}
 	} else {
 		w.state()
 	}
@@ -1535,9 +1613,10 @@ func TestC01(t *testing.T) {
 	tr := OpenTrace(t, "c01.trace")
 	defer tr.Close(t)
 	rng := NewRng(seed())
-	seqs := scale(30, 400)
+	seqs := scale(60, 400)
 	ops := scale(120, 300)
 	c01Corpus(t, tr)
+	c01CorpusTrigger2(t, tr)
 	for s := 0; s < seqs; s++ {
 		w := c01NewWorld(t, tr, rng)
 		w.state()
@@ -1546,4 +1625,505 @@ func TestC01(t *testing.T) {
 			w.oneOp()
 		}
 	}
+}
+
+// ---- stable-mint messages, directed --------------------------------------------------------------------------------
+
+// stableOp: one stable-mint message with amounts that hit every branch under the product's fee / decimals combination:
+// create when the product has no stable-mint vault yet, else deposits (converted amount at the debt floor and at the
+// remaining ceiling, ± 1) and withdrawals (everything, a fraction, the vault's whole collateral converted ± 1, the debt floor ± 1,
+// an amount whose fee share leaves nothing to burn).
+func (w *c01World) stableOp(user sdk.AccAddress, p c01Product, app uint64) {
+	r := w.rng
+	un := fmt.Sprint(w.acct(user.String()))
+	emit := func(kind string, a1, a2, a3, a4, a5 string, env string, ok bool) {
+		w.tr.Count("op:" + kind + ":" + c01Outcome(ok))
+		w.tr.Line("vault.msg", kind, a1, a2, a3, a4, a5, env, c01Outcome(ok))
+		w.state()
+	}
+	ep, _ := w.app.AssetKeeper.GetPairsVault(w.ctx, p.id)
+	var sv *vaulttypes.StableMintVault
+	for _, x := range w.app.VaultKeeper.GetStableMintVaults(w.ctx) {
+		if x.ExtendedPairVaultID == p.id {
+			y := x
+			sv = &y
+		}
+	}
+	decIn, decOut := w.decOf[p.assetIn], w.decOf[p.assetOut]
+	// collateral amount whose conversion is `out` of the debt asset (rounded down), and back
+	toIn := func(out sdk.Int) sdk.Int { return out.Mul(decIn).Quo(decOut) }
+	minted, _ := w.app.VaultKeeper.CheckAppExtendedPairVaultMapping(w.ctx, p.app, p.id)
+	ensure := func(asset uint64, amt sdk.Int) {
+		if !amt.IsPositive() || amt.GTE(sdk.NewInt(1).MulRaw(1<<62)) {
+			return
+		}
+		if bal := w.app.BankKeeper.GetBalance(w.ctx, user, w.denomOf[asset]).Amount; bal.LT(amt) {
+			w.fund(user, asset, amt.Sub(bal))
+		}
+	}
+	env := w.env(app, p.id, 0, false)
+	mintAmount := func() sdk.Int {
+		amt := w.amount(1 + r.Intn(2)).Mul(decIn).QuoRaw(1_000_000)
+		switch r.Intn(6) {
+		case 0:
+			amt = toIn(ep.DebtFloor).AddRaw(int64(r.Intn(3) - 1))
+			w.tr.Count("stable:amount:floor-boundary")
+		case 1:
+			amt = toIn(ep.DebtCeiling.Sub(minted)).AddRaw(int64(r.Intn(3) - 1))
+			w.tr.Count("stable:amount:ceiling-boundary")
+		}
+		if !amt.IsPositive() {
+			amt = sdk.NewInt(1)
+		}
+		return amt
+	}
+	if sv == nil || r.Chance(4) {
+		amt := mintAmount()
+		if r.Chance(90) {
+			ensure(p.assetIn, amt)
+		}
+		ok := w.deliver(&vaulttypes.MsgCreateStableMintRequest{From: user.String(), AppId: app, ExtendedPairVaultId: p.id, Amount: amt})
+		emit("stableCreate", un, u(app), u(p.id), amt.String(), "-", env, ok)
+		return
+	}
+	sid := sv.Id
+	if r.Chance(3) {
+		sid += uint64(1 + r.Intn(2))
+	}
+	if r.Chance(45) {
+		amt := mintAmount()
+		if r.Chance(90) {
+			ensure(p.assetIn, amt)
+		}
+		ok := w.deliver(&vaulttypes.MsgDepositStableMintRequest{From: user.String(), AppId: app, ExtendedPairVaultId: p.id, Amount: amt, StableVaultId: sid})
+		w.tr.Count(fmt.Sprintf("stable:deposit:fee>0=%v:dec=%v:%s", ep.DrawDownFee.IsPositive(), c01DecRel(decIn, decOut), c01Outcome(ok)))
+		emit("stableDeposit", un, u(app), u(p.id), u(sid), amt.String(), env, ok)
+		return
+	}
+	// withdraw: `amt` of the debt asset is burnt (less the fee share), the converted collateral comes back
+	all := sv.AmountIn.Mul(decOut).Quo(decIn) // debt amount whose conversion is the vault's whole collateral
+	amt := all
+	switch r.Intn(7) {
+	case 0:
+		amt = all.AddRaw(int64(r.Intn(3) - 1))
+		w.tr.Count("stable:withdraw:whole-collateral-boundary")
+	case 1:
+		amt = ep.DebtFloor.AddRaw(int64(r.Intn(3) - 1))
+		w.tr.Count("stable:withdraw:floor-boundary")
+	case 2:
+		amt = sv.AmountOut.AddRaw(int64(r.Intn(3) - 1))
+	case 3:
+		amt = w.amount(r.Intn(4))
+	default:
+		amt = all.QuoRaw(int64(2 + r.Intn(6)))
+	}
+	if !amt.IsPositive() {
+		amt = sdk.NewInt(1)
+	}
+	if r.Chance(90) {
+		ensure(p.assetOut, amt)
+	}
+	ok := w.deliver(&vaulttypes.MsgWithdrawStableMintRequest{From: user.String(), AppId: app, ExtendedPairVaultId: p.id, Amount: amt, StableVaultId: sid})
+	w.tr.Count(fmt.Sprintf("stable:withdraw:fee>0=%v:dec=%v:%s", ep.DrawDownFee.IsPositive(), c01DecRel(decIn, decOut), c01Outcome(ok)))
+	emit("stableWithdraw", un, u(app), u(p.id), u(sid), amt.String(), env, ok)
+}
+
+func c01DecRel(a, b sdk.Int) string {
+	switch {
+	case a.LT(b):
+		return "in<out"
+	case a.GT(b):
+		return "in>out"
+	}
+	return "in=out"
+}
+
+// ---- configuration changes in the middle of a history ----------------------------------------------------------------
+
+// reconfigOp changes a product's configuration through the REAL update paths — the wasm binding `WasmUpdatePairsVault`
+// (stability / closing / draw-down fee, liquidation penalty, debt ceiling and floor, min CR, IsVaultActive) and the x/asset
+// governance proposal `UpdateAssetRecords` (decimals, IsOraclePriceRequired) — and, rarely, the stable-mint flag through the
+// keeper's setter (the way a genesis import or an upgrade handler writes it; no message or binding changes it). The new
+// configuration is printed (`vault.reconfig`) and is what every later handler reads. A change of the stability fee books
+// the interest accrued so far on every vault of the product (`VaultIterateRewards`): reported as one interest step per vault.
+func (w *c01World) reconfigOp() {
+	r := w.rng
+	p := w.products[r.Intn(len(w.products))]
+	if vs := w.vaultsOf(""); len(vs) > 0 && r.Chance(60) {
+		// mostly a product that has open vaults: a lowered ceiling / raised floor then actually bites
+		if q := w.productByID(vs[r.Intn(len(vs))].ExtendedPairVaultID); q != nil {
+			p = *q
+		}
+	}
+	ep, _ := w.app.AssetKeeper.GetPairsVault(w.ctx, p.id)
+	before := map[uint64]sdk.Int{}
+	for _, v := range w.app.VaultKeeper.GetVaults(w.ctx) {
+		before[v.Id] = v.InterestAccumulated
+	}
+	minted, _ := w.app.VaultKeeper.CheckAppExtendedPairVaultMapping(w.ctx, p.app, p.id)
+	what := ""
+	changed := []uint64{p.id}
+	if r.Chance(8) {
+		// x/asset proposal on one of the product's assets
+		aid := []uint64{p.assetIn, p.assetOut}[r.Intn(2)]
+		a, _ := w.app.AssetKeeper.GetAsset(w.ctx, aid)
+		na := a
+		if r.Chance(50) {
+			na.Decimals = sdk.NewIntFromBigInt(new(big.Int).Exp(big.NewInt(10), big.NewInt([]int64{0, 6, 8, 12, 18}[r.Intn(5)]), nil))
+			what = "asset-decimals"
+		} else {
+			na.IsOraclePriceRequired = !a.IsOraclePriceRequired
+			what = "asset-oracle-flag"
+		}
+		if err := w.app.AssetKeeper.UpdateAssetRecords(w.ctx, na); err != nil {
+			w.tr.Count("op:reconfig:" + what + ":err")
+			return
+		}
+		a2, _ := w.app.AssetKeeper.GetAsset(w.ctx, aid)
+		w.decOf[aid] = a2.Decimals
+		changed = nil
+		for _, q := range w.products {
+			if q.assetIn == aid || q.assetOut == aid {
+				changed = append(changed, q.id)
+			}
+		}
+	} else if r.Chance(4) {
+		ep.IsStableMintVault = !ep.IsStableMintVault
+		w.app.AssetKeeper.SetPairsVault(w.ctx, ep)
+		for i := range w.products {
+			if w.products[i].id == p.id {
+				w.products[i].isStable = ep.IsStableMintVault
+			}
+		}
+		what = "stable-flag"
+	} else {
+		upd := bindings.MsgUpdatePairsVault{AppID: ep.AppId, ExtPairID: ep.Id, StabilityFee: ep.StabilityFee, ClosingFee: ep.ClosingFee,
+			LiquidationPenalty: ep.LiquidationPenalty, DrawDownFee: ep.DrawDownFee, IsVaultActive: ep.IsVaultActive, MinCr: ep.MinCr,
+			DebtCeiling: ep.DebtCeiling, DebtFloor: ep.DebtFloor, MinUsdValueLeft: ep.MinUsdValueLeft}
+		switch r.Intn(10) {
+		case 0: // the ceiling is LOWERED below (or to, ± 1) what is outstanding
+			if r.Chance(50) {
+				upd.DebtCeiling = minted.AddRaw(int64(r.Intn(3) - 1))
+			} else {
+				upd.DebtCeiling = minted.MulRaw(int64(r.Intn(100))).QuoRaw(100)
+			}
+			if upd.DebtCeiling.IsNegative() {
+				upd.DebtCeiling = sdk.ZeroInt()
+			}
+			what = "ceiling-lowered"
+		case 1:
+			upd.DebtCeiling = ep.DebtCeiling.MulRaw(int64(2 + r.Intn(4))).AddRaw(int64(r.Intn(1000)))
+			what = "ceiling-raised"
+		case 2: // the floor is RAISED above some open vault's principal (or to it, ± 1)
+			upd.DebtFloor = ep.DebtFloor.MulRaw(2).AddRaw(1)
+			for _, v := range w.app.VaultKeeper.GetVaults(w.ctx) {
+				if v.ExtendedPairVaultID == p.id && r.Chance(60) {
+					upd.DebtFloor = v.AmountOut.AddRaw(int64(r.Intn(3)))
+				}
+			}
+			what = "floor-raised"
+		case 3:
+			upd.DebtFloor = ep.DebtFloor.QuoRaw(int64(2 + r.Intn(5)))
+			what = "floor-lowered"
+		case 4:
+			upd.MinCr = c01Dec([]string{"1.5", "2.3", "1.000000000000000001", "1.1", "1.75", "3"}[r.Intn(6)])
+			what = "mincr"
+		case 5:
+			upd.DrawDownFee = c01Dec([]string{"0", "0.001", "0.01", "0.05", "0.000000000000000001", "0.999", "0.3"}[r.Intn(7)])
+			what = "drawdown-fee"
+		case 6:
+			upd.ClosingFee = c01Dec([]string{"0", "0.005", "0.02", "0.1"}[r.Intn(4)])
+			what = "closing-fee"
+		case 7:
+			upd.StabilityFee = c01Dec([]string{"0", "0.02", "0.25", "0.5", "0.07"}[r.Intn(5)])
+			what = "stability-fee"
+		case 8:
+			upd.IsVaultActive = !ep.IsVaultActive
+			what = fmt.Sprintf("active=%v", upd.IsVaultActive)
+		default:
+			upd.LiquidationPenalty = c01Dec([]string{"0", "0.15", "0.05", "0.4"}[r.Intn(4)])
+			what = "liquidation-penalty"
+		}
+		if err := w.app.AssetKeeper.WasmUpdatePairsVault(w.ctx, &upd); err != nil {
+			w.tr.Count("op:reconfig:" + what + ":err")
+			return
+		}
+	}
+	w.tr.Count("op:reconfig:" + what)
+	for _, id := range changed {
+		e, _ := w.app.AssetKeeper.GetPairsVault(w.ctx, id)
+		w.emitProduct("vault.reconfig", e)
+	}
+	for _, v := range w.app.VaultKeeper.GetVaults(w.ctx) {
+		if d := v.InterestAccumulated.Sub(before[v.Id]); !d.IsZero() {
+			w.tr.Count("op:reconfig:interest-booked")
+			w.tr.Line("vault.msg", "interestCalc", u(v.AppId), u(v.Id), "-", "-", "-", "esm=0;past=0;brk=0;pin=-;pout=-;iota="+d.String(), "ok")
+		}
+	}
+	w.state()
+	// directed follow-up: the owner of a vault that now lies below the floor tries to repay part of the principal (it would
+	// deepen the deficit: refused), the owner of a vault of a product now above its ceiling tries to draw (it would raise the
+	// excess: refused) — both funded and otherwise valid, so that only the limit decides
+	ep, _ = w.app.AssetKeeper.GetPairsVault(w.ctx, p.id)
+	if what == "active=false" {
+		// the owner of a vault of the deactivated product tries a deposit, a withdrawal and a draw (all refused now), then an
+		// interest-only repayment (still allowed)
+		for _, v := range w.app.VaultKeeper.GetVaults(w.ctx) {
+			if v.ExtendedPairVaultID != p.id {
+				continue
+			}
+			owner, _ := sdk.AccAddressFromBech32(v.Owner)
+			on := fmt.Sprint(w.acct(v.Owner))
+			amt := sdk.NewInt(int64(1 + r.Intn(1000)))
+			if bal := w.app.BankKeeper.GetBalance(w.ctx, owner, w.denomOf[p.assetIn]).Amount; bal.LT(amt) {
+				w.fund(owner, p.assetIn, amt.Sub(bal))
+			}
+			for i, kind := range []string{"deposit", "withdraw", "draw"} {
+				env := w.env(v.AppId, p.id, v.Id, true)
+				var msg sdk.Msg
+				switch i {
+				case 0:
+					msg = &vaulttypes.MsgDepositRequest{From: v.Owner, AppId: v.AppId, ExtendedPairVaultId: p.id, UserVaultId: v.Id, Amount: amt}
+				case 1:
+					msg = &vaulttypes.MsgWithdrawRequest{From: v.Owner, AppId: v.AppId, ExtendedPairVaultId: p.id, UserVaultId: v.Id, Amount: sdk.NewInt(1)}
+				default:
+					msg = &vaulttypes.MsgDrawRequest{From: v.Owner, AppId: v.AppId, ExtendedPairVaultId: p.id, UserVaultId: v.Id, Amount: sdk.NewInt(1)}
+				}
+				ok := w.deliver(msg)
+				a5 := amt.String()
+				if i > 0 {
+					a5 = "1"
+				}
+				w.tr.Count("op:reconfig:" + kind + "-on-inactive:" + c01Outcome(ok))
+				w.tr.Line("vault.msg", kind, on, u(v.AppId), u(p.id), u(v.Id), a5, env, c01Outcome(ok))
+				w.state()
+			}
+			return
+		}
+		return
+	}
+	if what != "floor-raised" && what != "ceiling-lowered" {
+		return
+	}
+	for _, v := range w.app.VaultKeeper.GetVaults(w.ctx) {
+		if v.ExtendedPairVaultID != p.id {
+			continue
+		}
+		owner, _ := sdk.AccAddressFromBech32(v.Owner)
+		on := fmt.Sprint(w.acct(v.Owner))
+		if what == "floor-raised" && v.AmountOut.LT(ep.DebtFloor) {
+			amt := v.InterestAccumulated.Add(w.pendingInterest(v.AppId, p.id, v.Id)).AddRaw(int64(1 + r.Intn(1000)))
+			if bal := w.app.BankKeeper.GetBalance(w.ctx, owner, w.denomOf[p.assetOut]).Amount; bal.LT(amt) {
+				w.fund(owner, p.assetOut, amt.Sub(bal))
+			}
+			env := w.env(v.AppId, p.id, v.Id, true)
+			ok := w.deliver(&vaulttypes.MsgRepayRequest{From: v.Owner, AppId: v.AppId, ExtendedPairVaultId: p.id, UserVaultId: v.Id, Amount: amt})
+			w.tr.Count("op:reconfig:repay-below-raised-floor:" + c01Outcome(ok))
+			w.tr.Line("vault.msg", "repay", on, u(v.AppId), u(p.id), u(v.Id), amt.String(), env, c01Outcome(ok))
+			w.state()
+			return
+		}
+		if what == "ceiling-lowered" && minted.GTE(ep.DebtCeiling) {
+			amt := sdk.NewInt(int64(1 + r.Intn(1000)))
+			env := w.env(v.AppId, p.id, v.Id, true)
+			ok := w.deliver(&vaulttypes.MsgDrawRequest{From: v.Owner, AppId: v.AppId, ExtendedPairVaultId: p.id, UserVaultId: v.Id, Amount: amt})
+			w.tr.Count("op:reconfig:draw-above-lowered-ceiling:" + c01Outcome(ok))
+			w.tr.Line("vault.msg", "draw", on, u(v.AppId), u(p.id), u(v.Id), amt.String(), env, c01Outcome(ok))
+			w.state()
+			return
+		}
+	}
+}
+
+// ---- second-generation auctions that run out ---------------------------------------------------------------------------
+
+// auctionBlock2Op runs the REAL auctionsV2 begin-blocker, usually after moving the clock past the end of an open auction of a
+// seized vault. Outside emergency shutdown the auction RESTARTS (new start price and end time; nothing in the vault books may
+// move, and a later bid settles it as usual). Under emergency shutdown `TriggerEsm` hands what is left back to the vault side:
+// one `esmReturn2` step per auction it worked on (recognised by the owner's vault having grown by the auction's remaining debt).
+func (w *c01World) auctionBlock2Op() bool { return w.auctionBlock2OpAt(true) }
+
+// jump = false: the begin-blocker runs at the current block time (an auction that has not ended only has its price updated)
+func (w *c01World) auctionBlock2OpAt(jump bool) bool {
+	r := w.rng
+	aucs := w.openAuctions()
+	if len(aucs) == 0 {
+		return false
+	}
+	a := aucs[r.Intn(len(aucs))]
+	if jump && !w.now.After(a.EndTime) && r.Chance(75) {
+		w.now = a.EndTime.Add(time.Duration(1+r.Intn(600)) * time.Second)
+		w.height++
+		w.ctx = w.ctx.WithBlockHeight(w.height).WithBlockTime(w.now)
+	}
+	type pre struct {
+		orig, app, prod   uint64
+		owner             string
+		cur, curDebt, fee sdk.Int
+		had               bool
+		out               sdk.Int
+		ended, esm        bool
+	}
+	var pres []pre
+	for _, x := range w.openAuctions() {
+		lv, found := w.app.NewliqKeeper.GetLockedVault(w.ctx, x.AppId, x.LockedVaultId)
+		if !found || lv.InitiatorType != "vault" {
+			continue
+		}
+		st, f := w.app.EsmKeeper.GetESMStatus(w.ctx, x.AppId)
+		q := pre{orig: lv.OriginalVaultId, app: x.AppId, prod: lv.ExtendedPairId, owner: lv.Owner, cur: x.CollateralToken.Amount,
+			curDebt: x.DebtToken.Amount, fee: lv.FeeToBeCollected, ended: w.ctx.BlockTime().After(x.EndTime), esm: f && st.Status, out: sdk.ZeroInt()}
+		if m, ok := w.app.VaultKeeper.GetUserAppExtendedPairMappingData(w.ctx, lv.Owner, x.AppId, lv.ExtendedPairId); ok {
+			if v, ok2 := w.app.VaultKeeper.GetVault(w.ctx, m.VaultId); ok2 {
+				q.had, q.out = true, v.AmountOut
+			}
+		}
+		pres = append(pres, q)
+	}
+	if panicked, msg := try(func() { auctionsV2.BeginBlocker(w.ctx, w.app.NewaucKeeper) }); panicked {
+		w.tr.Count("op:auctionblock2:panic")
+		w.t.Logf("auctionsV2 begin-blocker panicked: %s", msg)
+	}
+	n, restarts := 0, 0
+	for _, q := range pres {
+		if q.ended && !q.esm {
+			restarts++
+		}
+		if !(q.ended && q.esm) {
+			continue
+		}
+		m, ok := w.app.VaultKeeper.GetUserAppExtendedPairMappingData(w.ctx, q.owner, q.app, q.prod)
+		if !ok {
+			continue
+		}
+		v, ok2 := w.app.VaultKeeper.GetVault(w.ctx, m.VaultId)
+		if !ok2 || !v.AmountOut.Equal(q.out.Add(q.curDebt)) {
+			continue
+		}
+		w.tr.Line("vault.msg", "esmReturn2", u(q.orig), fmt.Sprint(w.acct(q.owner)), q.cur.String(), q.curDebt.String(), q.fee.String(), "esm=1;past=0;brk=0;pin=-;pout=-;iota=0", "ok")
+		n++
+	}
+	w.tr.Count(fmt.Sprintf("op:auctionblock2:restarted=%d:esm-returned=%d", minInt(restarts, 3), minInt(n, 3)))
+	if n > 0 {
+		w.stateKind("vault.state.esmreturn2")
+	} else {
+		w.state()
+	}
+	return true
+}
+
+// c01CorpusTrigger2: the witness of the recorded finding on auctionsV2 `TriggerEsm` — a vault is seized by the second
+// generation, nobody bids, the app is shut down, the auction runs out: in EVERY following block the begin-blocker gives the
+// owner the auction's collateral and target debt again as vault entries while the coins stay in the auction module account.
+func c01CorpusTrigger2(t *testing.T, tr *Trace) {
+	c01CorpusTrigger2Case(t, tr, false)
+	c01CorpusTrigger2Case(t, tr, true)
+}
+
+// withBid: a bidder first buys a third of the auction (more than the penalty is collected, so `TriggerEsm` burns the rest and
+// takes it off the minted total; the second block then fails for lack of coins in auction custody and is rolled back)
+func c01CorpusTrigger2Case(t *testing.T, tr *Trace, withBid bool) {
+	w := c01NewWorld(t, tr, NewRng(515151))
+	w.state()
+	user := w.users[0]
+	p0 := &w.products[0]
+	out := sdk.NewInt(30_000_000)
+	in := w.crBoundaryIn(p0, out).MulRaw(2).AddRaw(10)
+	w.fund(user, p0.assetIn, in)
+	env := w.env(p0.app, p0.id, 0, false)
+	ok := w.deliver(&vaulttypes.MsgCreateRequest{From: user.String(), AppId: p0.app, ExtendedPairVaultId: p0.id, AmountIn: in, AmountOut: out})
+	w.tr.Line("vault.msg", "create", fmt.Sprint(w.acct(user.String())), u(p0.app), u(p0.id), in.String(), out.String(), env, c01Outcome(ok))
+	w.state()
+	vs := w.vaultsOf(user.String())
+	if !ok || len(vs) == 0 {
+		t.Fatal("corpus: cannot open the vault")
+	}
+	// another user's well-collateralised vault of the same product: its collateral is what is left in custody later
+	other := w.users[1]
+	w.fund(other, p0.assetIn, in.MulRaw(3))
+	env = w.env(p0.app, p0.id, 0, false)
+	ok = w.deliver(&vaulttypes.MsgCreateRequest{From: other.String(), AppId: p0.app, ExtendedPairVaultId: p0.id, AmountIn: in.MulRaw(3), AmountOut: out})
+	w.tr.Line("vault.msg", "create", fmt.Sprint(w.acct(other.String())), u(p0.app), u(p0.id), in.MulRaw(3).String(), out.String(), env, c01Outcome(ok))
+	w.state()
+	twa, _ := w.app.MarketKeeper.GetTwa(w.ctx, p0.assetIn)
+	w.setPrice(p0.assetIn, twa.Twa*45/100, true)
+	w.liquidate(w.users[1], vs[0], false, twa.Twa)
+	if auc := w.openAuctions(); withBid && len(auc) > 0 {
+		a := auc[0]
+		bid := a.DebtToken.Amount.QuoRaw(3)
+		w.fund(w.users[1], w.assetByDenom(a.DebtToken.Denom), bid)
+		w.state()
+		okk := w.deliver(&auctionsV2types.MsgPlaceMarketBidRequest{AuctionId: a.AuctionId, Bidder: w.users[1].String(), Amount: sdk.NewCoin(a.DebtToken.Denom, bid)})
+		w.tr.Count(fmt.Sprintf("corpus:v2-partial-bid:%v", okk))
+		w.tr.Line("vault.msg", "donate", "99", "0", "0", "-", "-", "esm=0;past=0;brk=0;pin=-;pout=-;iota=0", "err")
+		w.stateKind("vault.state.bid")
+	}
+	w.app.EsmKeeper.SetESMStatus(w.ctx, esmtypes.ESMStatus{AppId: p0.app, Status: true, StartTime: w.now, EndTime: w.now.Add(100 * time.Hour), SnapshotStatus: true})
+	for _, id := range w.assetIDs {
+		tw, _ := w.app.MarketKeeper.GetTwa(w.ctx, id)
+		w.app.EsmKeeper.SetSnapshotOfPrices(w.ctx, p0.app, id, tw.Twa)
+	}
+	w.now = w.now.Add(2 * time.Hour)
+	defer func() {
+		// the consequence: inside the cool-off period the owner withdraws half of the collateral `TriggerEsm` recorded for him —
+		// coins that belong to the other user's vault (ratio >= 1 against the recorded debt at the snapshot prices is all that is asked)
+		for _, v := range w.vaultsOf(user.String()) {
+			amt := v.AmountIn.QuoRaw(2)
+			env := w.env(v.AppId, v.ExtendedPairVaultID, v.Id, true)
+			okk := w.deliver(&vaulttypes.MsgWithdrawRequest{From: user.String(), AppId: v.AppId, ExtendedPairVaultId: v.ExtendedPairVaultID, UserVaultId: v.Id, Amount: amt})
+			w.tr.Count(fmt.Sprintf("corpus:v2-trigger-esm:owner-withdraws-others-collateral:bid=%v:%s", withBid, c01Outcome(okk)))
+			w.tr.Line("vault.msg", "withdraw", fmt.Sprint(w.acct(user.String())), u(v.AppId), u(v.ExtendedPairVaultID), u(v.Id), amt.String(), env, c01Outcome(okk))
+			w.state()
+		}
+	}()
+	for i := 0; i < 2; i++ {
+		w.height++
+		w.now = w.now.Add(6 * time.Second)
+		w.ctx = w.ctx.WithBlockHeight(w.height).WithBlockTime(w.now)
+		if w.auctionBlock2Op() {
+			w.tr.Count(fmt.Sprintf("corpus:v2-trigger-esm:bid=%v", withBid))
+		}
+	}
+}
+
+// esmWithdrawOp: while an app is shut down and its cool-off period is NOT over, owners may still withdraw collateral; the ratio
+// is then checked against the PRINCIPAL alone, at the snapshot prices, and must be at least 1 (msg_server.go:336-411,
+// vault.go:325-351,389). The owner of a vault of such an app withdraws down to that boundary (± 1, or a fraction).
+func (w *c01World) esmWithdrawOp() bool {
+	r := w.rng
+	for _, v := range w.vaultsOf("") {
+		st, f := w.app.EsmKeeper.GetESMStatus(w.ctx, v.AppId)
+		if !f || !st.Status || !st.SnapshotStatus || w.ctx.BlockTime().After(st.EndTime) {
+			continue
+		}
+		vp := w.productByID(v.ExtendedPairVaultID)
+		ep, _ := w.app.AssetKeeper.GetPairsVault(w.ctx, vp.id)
+		pin, ok1 := w.app.EsmKeeper.GetSnapshotOfPrices(w.ctx, v.AppId, vp.assetIn)
+		pout, ok2 := w.app.EsmKeeper.GetSnapshotOfPrices(w.ctx, v.AppId, vp.assetOut)
+		if !ep.AssetOutOraclePrice {
+			pout, ok2 = ep.AssetOutPrice, true
+		}
+		if !ok1 || !ok2 || pin == 0 || pout == 0 {
+			w.tr.Count("op:withdraw-under-shutdown:skipped-no-snapshot-price")
+			continue
+		}
+		// collateral needed for ratio 1 against the principal: in = out * pout * decIn / (pin * decOut)
+		need := v.AmountOut.Mul(sdk.NewIntFromUint64(pout)).Mul(w.decOf[vp.assetIn]).Quo(sdk.NewIntFromUint64(pin).Mul(w.decOf[vp.assetOut]))
+		amt := v.AmountIn.Sub(need).AddRaw(int64(r.Intn(5) - 2))
+		if r.Chance(30) || !amt.IsPositive() {
+			amt = v.AmountIn.QuoRaw(int64(2 + r.Intn(8)))
+		}
+		if !amt.IsPositive() {
+			amt = sdk.NewInt(1)
+		}
+		env := w.env(v.AppId, vp.id, v.Id, true)
+		ok := w.deliver(&vaulttypes.MsgWithdrawRequest{From: v.Owner, AppId: v.AppId, ExtendedPairVaultId: vp.id, UserVaultId: v.Id, Amount: amt})
+		w.tr.Count("op:withdraw-under-shutdown:" + c01Outcome(ok))
+		w.tr.Count("op:withdraw:" + c01Outcome(ok))
+		w.tr.Line("vault.msg", "withdraw", fmt.Sprint(w.acct(v.Owner)), u(v.AppId), u(vp.id), u(v.Id), amt.String(), env, c01Outcome(ok))
+		w.state()
+		return true
+	}
+	w.tr.Count("op:withdraw-under-shutdown:no-candidate")
+	return false
 }
